@@ -1489,7 +1489,7 @@ func ruleIndexLE(prog *Program, rep *Report, rels ...string) {
 // through another type reads the bytes of the field as the wrong number (uint16
 // 50051 as int16 -15485). The rule follows the binding, not file or function names.
 func ruleUnsafeKind(prog *Program, rep *Report) {
-	rep.Rules = append(rep.Rules, "K-unsafekind: for every accessor function listed in an array that the field-plan builder selects under `case reflect.<Kind>` (oj, sen, alt), each load *(*T)(unsafe.Pointer(..)) in the function has T of exactly that kind")
+	rep.Rules = append(rep.Rules, "K-unsafekind: for every accessor function listed in an array that the field-plan builder selects under `case reflect.<Kind>` (oj, sen, alt), each load *(*T)(unsafe.Pointer(..)) in the function has T of exactly that kind, and the function formats the value with the strconv function of the kind's signedness (AppendInt / FormatInt for Int kinds, AppendUint / FormatUint for Uint kinds)")
 	want := map[string]types.BasicKind{"Bool": types.Bool, "Int": types.Int, "Int8": types.Int8, "Int16": types.Int16, "Int32": types.Int32, "Int64": types.Int64,
 		"Uint": types.Uint, "Uint8": types.Uint8, "Uint16": types.Uint16, "Uint32": types.Uint32, "Uint64": types.Uint64, "Float32": types.Float32, "Float64": types.Float64, "String": types.String}
 	funcs := 0
@@ -1611,6 +1611,30 @@ func ruleUnsafeKind(prog *Program, rep *Report) {
 						bad = true
 						rep.Violate(Finding{Rule: "K-unsafekind", Key: fmt.Sprintf("%s.%s:load:%s", rel, fd.Name.Name, types.ExprString(pt.X)), Pos: prog.Pos(st.Pos()),
 							Msg: fmt.Sprintf("%s.%s is the accessor the field plan uses for reflect.%s fields but loads the field through *(*%s)(unsafe.Pointer(..)): the bytes of the field are read as another type", rel, fd.Name.Name, kind, types.ExprString(pt.X))})
+					}
+					return true
+				})
+				// the decimal text of the value is made by the formatter of the kind's signedness
+				signed := strings.HasPrefix(kind, "Int")
+				unsigned := strings.HasPrefix(kind, "Uint")
+				ast.Inspect(fd.Body, func(n ast.Node) bool {
+					c, ok := n.(*ast.CallExpr)
+					if !ok {
+						return true
+					}
+					sel, ok := c.Fun.(*ast.SelectorExpr)
+					if !ok {
+						return true
+					}
+					fn, ok := info.Uses[sel.Sel].(*types.Func)
+					if !ok || fn.Pkg() == nil || fn.Pkg().Path() != "strconv" {
+						return true
+					}
+					wrong := (signed && (fn.Name() == "AppendUint" || fn.Name() == "FormatUint")) || (unsigned && (fn.Name() == "AppendInt" || fn.Name() == "FormatInt"))
+					if wrong {
+						bad = true
+						rep.Violate(Finding{Rule: "K-unsafekind", Key: fmt.Sprintf("%s.%s:format:%s", rel, fd.Name.Name, fn.Name()), Pos: prog.Pos(c.Pos()),
+							Msg: fmt.Sprintf("%s.%s is the accessor the field plan uses for reflect.%s fields but writes the value with strconv.%s: a negative value is written as a huge unsigned number (or a large unsigned one as negative)", rel, fd.Name.Name, kind, fn.Name())})
 					}
 					return true
 				})
